@@ -3528,6 +3528,124 @@ fn reuse_specials(ctx: &Ctx, stats: &Stats, h: &Arc<Hier>, only: Option<&str>) -
     Value::Object(out)
 }
 
+// ------------------------------------------------------------ the letter case of the query name
+//
+// RFC 4034 6.2 / RFC 5155 5: signatures and NSEC3 hashes are made over owner names in canonical (lower-case)
+// form, RFC 4343: names compare case-insensitively.  So the verdict for an answer does not depend on how the
+// query name is spelled (0x20 mixed-case queries, users typing upper case).  The authentic upstream echoes
+// the question in the query's spelling; records come in the zone's spelling, except that owners equal to the
+// query name may repeat the query's spelling (servers that compress them to a pointer into the question) and
+// wildcard expansions necessarily do.
+
+/// Spelling `mode` of a name: 0 as given (lower case), 1 all letters upper case, 2 alternating case starting
+/// with upper case (counted over the letters of the whole name), 3 alternating starting with lower case.
+fn respell(l: &Labels, mode: u8) -> Labels {
+    let mut n = 0usize;
+    l.iter()
+        .map(|lab| {
+            lab.iter()
+                .map(|&b| {
+                    if !b.is_ascii_alphabetic() {
+                        return b;
+                    }
+                    n += 1;
+                    match mode {
+                        0 => b,
+                        1 => b.to_ascii_uppercase(),
+                        2 => if n % 2 == 1 { b.to_ascii_uppercase() } else { b.to_ascii_lowercase() },
+                        _ => if n % 2 == 0 { b.to_ascii_uppercase() } else { b.to_ascii_lowercase() },
+                    }
+                })
+                .collect()
+        })
+        .collect()
+}
+
+/// Owners of records that are not wildcard expansions put back into the zone's spelling.
+fn zone_spelling(r: &mut Resp) {
+    for s in 0..3 {
+        for e in r.sec[s].iter_mut() {
+            if key(&e.rr.owner) == e.src.1 {
+                e.rr.owner = unkey(&e.src.1);
+            }
+        }
+    }
+}
+
+/// One ValidationContext validates the authentic answers for the SAME (name, type) asked in the spellings
+/// `spellings` one after the other (caches keyed by names must not make the second verdict depend on the first).
+/// owners: 0 owners equal to the query name repeat the query's spelling, 1 all owners in the zone's spelling.
+fn judge_case_reuse(ctx: &Ctx, stats: &Stats, h: &Arc<Hier>, q: &Query, owners: u8, spellings: &[u8], verbose: bool) {
+    let vc = fresh_context(h);
+    let replay = json!({"scenario": h.name, "special": "query-name-case", "qname": show(&q.name), "qtype": q.qtype, "owners": owners, "spellings": spellings, "faults": []});
+    let denial = if h.nsec3 { if h.opt_out { "nsec3-optout" } else { "nsec3" } } else { "nsec" };
+    for (i, sp) in spellings.iter().enumerate() {
+        let qn = respell(&q.name, *sp);
+        let qq = Query { name: qn.clone(), qtype: q.qtype };
+        let mut resp = h.answer(&qn, q.qtype);
+        if owners == 1 {
+            zone_spelling(&mut resp);
+        }
+        let (v, out) = validate_bytes(&vc, &resp.encode());
+        stats.eval();
+        stats.count(&format!("query-name-case|one-context|step{}|{}", i + 1, v.short()));
+        if verbose {
+            println!("  step {} {} {}: {v:?}", i + 1, show(&qn), tname(q.qtype));
+        }
+        let step = if i == 0 { "fresh-context" } else { "same-name-in-other-spelling-validated-before" };
+        if let Verdict::Panic(p) = &v {
+            ctx.violation(&format!("C14|validator|panic|{}", panic_sig(p)), &format!("validator panicked ({p}) on the authentic answer for {} {} in scenario {}", show(&qn), tname(q.qtype), h.name), replay.clone());
+            return;
+        }
+        let exp = expected_unmodified(h, &qq);
+        let truth = h.classify(&qn, q.qtype);
+        if !exp.contains(&v.short().as_str()) {
+            let what = if exp[0] == "Insecure" { "below-insecure-delegation" } else { "correctly-signed" };
+            ctx.violation(
+                &format!("C14|validator|query-name-not-in-lower-case|{step}|unmodified-{what}-reported-{}|denial={denial}|answer={}", v.short(), truth.short()),
+                &format!(
+                    "scenario {}: authentic answer for {} {} (step {} of the spellings {:?} of one name on one ValidationContext; 0 lower, 1 upper, 2/3 alternating case) reported {v:?}, expected {exp:?} as for the lower-case spelling",
+                    h.name,
+                    show(&qn),
+                    tname(q.qtype),
+                    i + 1,
+                    spellings
+                ),
+                replay.clone(),
+            );
+        }
+        if v.secure() {
+            for f in check_secure(h, &out, "none") {
+                ctx.violation(&format!("{}|query-name-not-in-lower-case|{step}", f.sig), &format!("{} [scenario {} query {} {}]", f.what, h.name, show(&qn), tname(q.qtype)), replay.clone());
+            }
+        }
+    }
+}
+
+fn case_reuse_plan(quick: bool) -> (Vec<Query>, Vec<Vec<u8>>) {
+    let q = |n: &str, t: u16| Query { name: nm(n), qtype: t };
+    // positive, wildcard, NODATA, NXDOMAIN, DS (NODATA at the insecure delegation), name of the parent zone,
+    // wildcard NODATA, NXDOMAIN two labels below the closest encloser, CNAME, empty non-terminal / other name
+    let queries = vec![q("www.zone.tld.", T_A), q("x.w.zone.tld.", T_A), q("www.zone.tld.", T_TXT), q("nx.zone.tld.", T_A), q("zone.tld.", T_DS), q("www.tld.", T_A), q("x.w.zone.tld.", T_MX), q("deep.nx.zone.tld.", T_A), q("cn.zone.tld.", T_A), q("b.zone.tld.", T_A), q("nx.tld.", T_A)];
+    let n = if quick { 3u8 } else { 4 };
+    let mut seqs = vec![];
+    for a in 0..n {
+        for b in 0..n {
+            if a != b {
+                seqs.push(vec![a, b]);
+                if !quick {
+                    for c in 0..n {
+                        if c != b {
+                            seqs.push(vec![a, b, c]);
+                        }
+                    }
+                }
+            }
+        }
+    }
+    (queries, seqs)
+}
+
 // ------------------------------------------------------------ trust anchor forms and non-default Config
 
 /// Trust anchors from zone-file lines through one of the three construction routes.
@@ -5058,6 +5176,12 @@ fn main() {
             judge_time_history(&ctx, &run.stats, tc, &hist, true);
             ctx.finish(json!({"evaluations": run.stats.evals(), "distinct_nontrivial": 0, "rule": "replay", "samples": [c], "exhaustive": false}), &["replay of one case"]);
         }
+        if c["special"].as_str() == Some("query-name-case") {
+            let qq = Query { name: unshow(c["qname"].as_str().unwrap()), qtype: c["qtype"].as_u64().unwrap() as u16 };
+            let sps: Vec<u8> = c["spellings"].as_array().expect("spellings").iter().map(|x| x.as_u64().unwrap() as u8).collect();
+            judge_case_reuse(&ctx, &run.stats, &run.hiers[hi], &qq, c["owners"].as_u64().unwrap_or(0) as u8, &sps, true);
+            ctx.finish(json!({"evaluations": run.stats.evals(), "distinct_nontrivial": 0, "rule": "replay", "samples": [c], "exhaustive": false}), &["replay of one case"]);
+        }
         if let Some(sp) = c["special"].as_str() {
             let r = reuse_specials(&ctx, &run.stats, &run.hiers[hi], Some(sp));
             println!("{sp}: {r}");
@@ -5131,6 +5255,21 @@ fn main() {
             plan.push((hi, qq, if quick { 2 } else { 0 }, 0));
         }
     }
+    // the letter case of the query name (see `respell`): S1 (NSEC), S2 (NSEC3), S3, S3b (insecure child below
+    // NSEC / NSEC3) x the six quick queries + four more answer kinds x {upper case, alternating case
+    // (thorough: both phases)}.  The all-upper-case spelling of the six quick queries of S1 and S2 gets the
+    // whole single-fault menu in the quick tier, everything else the baseline (thorough: all the whole menu).
+    let case_more = vec![q("x.w.zone.tld.", T_MX), q("deep.nx.zone.tld.", T_A), q("cn.zone.tld.", T_A), q("b.zone.tld.", T_A)];
+    let plan_before_case = plan.len();
+    for hi in 0..4usize {
+        for (n, qq) in quick_queries.iter().chain(case_more.iter()).enumerate() {
+            for sp in 1..=(if quick { 2u8 } else { 3 }) {
+                let mode = if !quick || (sp == 1 && hi < 2 && n < quick_queries.len()) { 0 } else { 2 };
+                plan.push((hi, Query { name: respell(&qq.name, sp), qtype: qq.qtype }, mode, 0));
+            }
+        }
+    }
+    let n_case_plans = plan.len() - plan_before_case;
     // the redirect dimension.  Queries at the owner of a DNAME (its other data, the DNAME itself, absent types),
     // strictly below it (one and two labels; data, NODATA, NXDOMAIN, a further CNAME / DNAME at the target),
     // at siblings / ancestors / a name that only ends with the same octets, through every DNAME target kind,
@@ -5206,6 +5345,20 @@ fn main() {
     let h0 = run.hiers[0].clone();
     let expiry = std::thread::spawn(move || run_across_expiry(&h0));
     let reuse_json = reuse_specials(&ctx, &run.stats, &run.hiers[sx], None);
+
+    // one context, the same name asked in different spellings one after the other
+    let (case_queries, case_seqs) = case_reuse_plan(quick);
+    let mut case_jobs: Vec<(usize, usize, u8, usize)> = vec![];
+    for hi in (0..4usize).chain(if quick { None } else { Some(5usize) }) {
+        for qi in 0..case_queries.len() {
+            for owners in 0..2u8 {
+                for si in 0..case_seqs.len() {
+                    case_jobs.push((hi, qi, owners, si));
+                }
+            }
+        }
+    }
+    case_jobs.par_iter().for_each(|(hi, qi, owners, si)| judge_case_reuse(&ctx, &run.stats, &run.hiers[*hi], &case_queries[*qi], *owners, &case_seqs[*si], false));
 
     // histories: one context, the zone re-signed between the validations
     let hq = vec![q("www.zone.tld.", T_A), q("x.w.zone.tld.", T_A), q("www.zone.tld.", T_TXT), q("nx.zone.tld.", T_A), q("b.zone.tld.", T_A), q("x.w.zone.tld.", T_MX), q("mail.zone.tld.", T_MX), q("cn.zone.tld.", T_A), q("deep.nx.zone.tld.", T_A)];
@@ -5373,7 +5526,7 @@ fn main() {
             "distinct_nontrivial": run.stats.distinct_count(),
             "rule": "one evaluation = one run of the real validator (validate_msg, or Connection for single faults) on a fresh ValidationContext with the oracle applied; non-trivial = a faulted case in which at least one message delivered to the validator (the validated answer or an upstream DS/DNSKEY response) differs in its octets from the authentic one; distinct by hash of (scenario, query, fault list)",
             "exhaustive": true,
-            "bound": if quick { "quick: scenarios S1,S2,S3,S3b x 17 queries: every single fault of the menu at every position (validate_msg and Connection); S6 (colliding key tag listed first) x 6 queries all single faults, 11 more baselines; CNAME owner x {NS,AAAA,MX,TXT} with the CNAME-to-NODATA replacement; direct wildcard-owner queries (baseline); every second name of the NXDOMAIN ring x every NSEC/NSEC3 swap; all pairs of representative faults (one per kind and position) for 6 queries; three context-reuse cases; all two-step histories of one context over 8 re-signed states of zone.tld. x 9 queries; Connection reply post-processing for request flags {AD,DO,CD} x upstream AD x upstream OPT x 60 answers (Secure/Insecure/Bogus/Indeterminate); trust anchors as DNSKEY / DS (SHA-1, SHA-256, SHA-384), right and wrong, at root / tld. / zone.tld., 17 combinations x 3 construction routes x 7 queries; Config: set_bad_signatures x number of bad RRSIGs around the limit, NSEC3 iteration limits 10 x 9 values x zones with 2 and 150 iterations, CNAME/DNAME chain limit, one-entry caches; a DNAME redirection and a 3-CNAME chain in the zone; redirect dimension: scenarios D1 (NSEC), D2 (NSEC3), D3 (insecure child) x 38 queries at / below / beside DNAME owners and through CNAME chains x the redirect fault menu at every chain link, 8 of the queries of D1, D2 also with every general single fault" } else { "thorough: 6 scenarios x 17 queries: every single fault at every position (validate_msg and Connection); CNAME-owner and wildcard-owner queries; full NXDOMAIN ring x every NSEC/NSEC3 swap; ALL pairs of single faults for all 17 queries of S1,S2,S3,S3b,S5 and pairs of representatives for S6; three context-reuse cases; all two-step histories of one context over 8 re-signed states of zone.tld. x 9 queries and all three-step histories over 4 denial-parameter states x 4 negative queries; Connection reply post-processing for request flags {AD,DO,CD} x upstream AD x upstream OPT x 60 answers (Secure/Insecure/Bogus/Indeterminate); trust anchors as DNSKEY / DS (SHA-1, SHA-256, SHA-384), right and wrong, at root / tld. / zone.tld., 17 combinations x 3 construction routes x 7 queries; Config: set_bad_signatures x number of bad RRSIGs around the limit, NSEC3 iteration limits 10 x 9 values x zones with 2 and 150 iterations, CNAME/DNAME chain limit, one-entry caches; a DNAME redirection and a 3-CNAME chain in the zone; redirect dimension: scenarios D1 (NSEC), D2 (NSEC3), D3 (insecure child) x 38 queries at / below / beside DNAME owners and through CNAME chains x the redirect fault menu at every chain link; all queries of D1, D2 also with every general single fault and all pairs of representatives" },
+            "bound": format!("{}; letter case of the query name: see query_name_case_dimension", if quick { "quick: scenarios S1,S2,S3,S3b x 17 queries: every single fault of the menu at every position (validate_msg and Connection); S6 (colliding key tag listed first) x 6 queries all single faults, 11 more baselines; CNAME owner x {NS,AAAA,MX,TXT} with the CNAME-to-NODATA replacement; direct wildcard-owner queries (baseline); every second name of the NXDOMAIN ring x every NSEC/NSEC3 swap; all pairs of representative faults (one per kind and position) for 6 queries; three context-reuse cases; all two-step histories of one context over 8 re-signed states of zone.tld. x 9 queries; Connection reply post-processing for request flags {AD,DO,CD} x upstream AD x upstream OPT x 60 answers (Secure/Insecure/Bogus/Indeterminate); trust anchors as DNSKEY / DS (SHA-1, SHA-256, SHA-384), right and wrong, at root / tld. / zone.tld., 17 combinations x 3 construction routes x 7 queries; Config: set_bad_signatures x number of bad RRSIGs around the limit, NSEC3 iteration limits 10 x 9 values x zones with 2 and 150 iterations, CNAME/DNAME chain limit, one-entry caches; a DNAME redirection and a 3-CNAME chain in the zone; redirect dimension: scenarios D1 (NSEC), D2 (NSEC3), D3 (insecure child) x 38 queries at / below / beside DNAME owners and through CNAME chains x the redirect fault menu at every chain link, 8 of the queries of D1, D2 also with every general single fault" } else { "thorough: 6 scenarios x 17 queries: every single fault at every position (validate_msg and Connection); CNAME-owner and wildcard-owner queries; full NXDOMAIN ring x every NSEC/NSEC3 swap; ALL pairs of single faults for all 17 queries of S1,S2,S3,S3b,S5 and pairs of representatives for S6; three context-reuse cases; all two-step histories of one context over 8 re-signed states of zone.tld. x 9 queries and all three-step histories over 4 denial-parameter states x 4 negative queries; Connection reply post-processing for request flags {AD,DO,CD} x upstream AD x upstream OPT x 60 answers (Secure/Insecure/Bogus/Indeterminate); trust anchors as DNSKEY / DS (SHA-1, SHA-256, SHA-384), right and wrong, at root / tld. / zone.tld., 17 combinations x 3 construction routes x 7 queries; Config: set_bad_signatures x number of bad RRSIGs around the limit, NSEC3 iteration limits 10 x 9 values x zones with 2 and 150 iterations, CNAME/DNAME chain limit, one-entry caches; a DNAME redirection and a 3-CNAME chain in the zone; redirect dimension: scenarios D1 (NSEC), D2 (NSEC3), D3 (insecure child) x 38 queries at / below / beside DNAME owners and through CNAME chains x the redirect fault menu at every chain link; all queries of D1, D2 also with every general single fault and all pairs of representatives" }),
             "scenarios": run.hiers.iter().take(nh).chain(run.hiers.iter().skip(sx)).map(|h| h.name).collect::<Vec<_>>(),
             "query_plans": plan.len(),
             "cases": cases.len() as u64 + n_pairs.load(AO::Relaxed),
@@ -5396,6 +5549,15 @@ fn main() {
                 "faults": "per question, at every link n_0..n_k of the authentic CNAME/DNAME chain: (1) every DNAME RRset of the hierarchy applied to n_i although n_i is its own owner / an ancestor of it / unrelated, without and with the matching synthesized CNAME, continued by the authentic answer or denial for the name it maps to; (2) every DNAME link's synthesized CNAME with 4 wrong targets, continued with the answer for the wrong or the right target; (3) the chain cut after i links with the denial (authentic, or own NSEC/NSEC3, or would-be NXDOMAIN records below a DNAME / wildcard) of every chain name, DNAME owner and DNAME target for QTYPE / PTR / CNAME; (4) every link dropped (CNAME, DNAME, both); messages with identical octets listed once; the general single-fault menu on top for the marked queries (quick) / all queries (thorough)",
                 "oracle": "as everywhere in this check: unmodified => Secure (Insecure if the chain enters the insecure child); Secure => every RRset authentic with a currently valid RRSIG (an unsigned CNAME only if it is exactly the RFC 6672 synthesis of an authentic DNAME present in the section), SNAME obtained by following CNAMEs and DNAMEs of strict ancestors only, and the answer / NODATA / NXDOMAIN claim about SNAME true in the zone model with a complete NSEC/NSEC3 proof (independent checker)",
                 "not_covered": "QTYPE=CNAME below a DNAME owner (RFC 6672 leaves open whether the chase continues), DNAME at a wildcard / at a zone apex, YXDOMAIN overflow",
+            },
+            "query_name_case_dimension": {
+                "spellings": "0 lower case (as the zone stores it), 1 all upper case, 2 alternating case starting with upper case, 3 (thorough) alternating starting with lower case; counted over the letters of the whole query name",
+                "upstream": "the question is echoed in the query's spelling; records in the zone's spelling, owners equal to the query name in the query's spelling (fault-enumeration plans and owners=0) or the zone's (owners=1); wildcard expansions in the query's spelling",
+                "query_plans": n_case_plans,
+                "plans": if quick { "S1, S2, S3, S3b x 10 queries (positive, wildcard, NODATA, NXDOMAIN, DS, parent-zone name, wildcard NODATA, deep NXDOMAIN, CNAME, other positive) x spellings {1, 2}: baseline through validate_msg and Connection; spelling 1 of the first six queries of S1, S2 with every single fault of the menu at every position" } else { "S1, S2, S3, S3b x 10 queries x spellings {1, 2, 3} x every single fault of the menu at every position" },
+                "one_context": {"scenarios": if quick { 4 } else { 5 }, "queries": case_queries.len(), "owner_spellings": 2, "spelling_sequences": case_seqs.len(), "contexts": case_jobs.len(),
+                    "rule": "one ValidationContext validates the authentic answers for the same (name, type) in every ordered sequence of two (thorough: also three) different spellings"},
+                "oracle": "unchanged: the authentic answer is Secure (Insecure below the insecure delegation) whatever the spelling and whatever was validated before on the context; Secure => every RRset authentic with a valid RRSIG and the claim true with a complete NSEC/NSEC3 proof (canonical, i.e. lower-case, names: RFC 4034 6.2, RFC 5155 5)",
             },
             "connection_flag_product": {"answers": flag_cases.len(), "runs": flag_runs.len(), "rule": "request flags {AD,DO,CD} x upstream AD x upstream OPT record x answers that are Secure (also with TTLs to be clamped) / Insecure / Bogus / Indeterminate"},
             "samples": run.stats.samples(),
